@@ -1,5 +1,5 @@
-(* C12: the composed 3-D operator (smooth the two other axes for prewitt / sobel, difference along the axis) is exact on
-   affine fields at the points each scheme supports -- all shapes, all spacings, all six modes. *)
+(* C12: the composed 2-D / 3-D operators (smooth the other axes for prewitt / sobel with replicate padding, difference along
+   the axis) are exact on affine fields at every point the difference scheme supports -- all shapes, spacings, modes. *)
 From Coq Require Import ZArith List Field Ring Lia Bool.
 From DV Require Import Base.Field Base.FieldFacts Base.LinAlg Base.Tactics Model.BSplineBase Gen.BSpline Model.BSpline
   Gen.FlowDeriv Model.FiniteDiff Proofs.C14Tac Proofs.C14Eval Proofs.C12FD Proofs.C12ND.
@@ -11,6 +11,8 @@ Context {K : fld}.
 (* f(z, y, x) = a + bx (x hx) + by (y hy) + bz (z hz) on an nz x ny x nx grid (tensor order [z][y][x]) *)
 Definition field3 (a bx by_ bz hx hy hz : K) (nx ny nz : nat) : list (list (list K)) :=
   map (fun z => map (fun y => map (fun x => a + bx * (zn x * hx) + by_ * (zn y * hy) + bz * (zn z * hz)) (seq 0 nx)) (seq 0 ny)) (seq 0 nz).
+Definition rect2 (ny nx : nat) (c : list (list K)) : Prop :=
+  length c = ny /\ forall y, (y < ny)%nat -> length (nth y c []) = nx.
 Definition box3 (nz ny nx : nat) (c : list (list (list K))) : Prop :=
   length c = nz /\ (forall z, (z < nz)%nat -> length (nth z c []) = ny /\
                      forall y, (y < ny)%nat -> length (nth y (nth z c []) []) = nx).
@@ -144,13 +146,12 @@ Definition affv (a bx by_ bz hx hy hz : K) (z y x : nat) : K :=
   a + bx * (zn x * hx) + by_ * (zn y * hy) + bz * (zn z * hz).
 
 Lemma smooth_line (m : fdmode) (n i : nat) (s b h : K) (g : nat -> K) :
-  (forall j, (j < n)%nat -> g j = s * (zn j * h) + b) -> smooth_ok m n i ->
-  nth i (smooth1 m (map g (seq 0 n))) 0 = s * (zn i * h) + b.
+  (forall j, (j < n)%nat -> g j = s * (zn j * h) + b) -> (i < n)%nat ->
+  nth i (smooth1 m (map g (seq 0 n))) 0 = s * (zn i * h) + b + shiftc K m n i * (s * h).
 Proof.
   intros Hg Hi. assert (E : map g (seq 0 n) = aff_seq s b h n).
   { unfold aff_seq. apply map_ext_in. intros j Hj. apply in_seq in Hj. apply Hg. lia. }
-  rewrite E. destruct m; cbn in Hi; try (cbn [smooth1]; apply nth_aff; lia);
-  rewrite (smooth_affine_interior K Kf Kc) by lia; apply nth_aff; lia.
+  rewrite E. apply smooth_affine; assumption.
 Qed.
 
 Lemma diff_line (m : fdmode) (n i : nat) (s b h : K) (g : nat -> K) : h <> 0 ->
@@ -162,67 +163,134 @@ Proof.
   rewrite E. apply fd1_affine_exact; assumption.
 Qed.
 
-Lemma ok_lt m n i : smooth_ok m n i -> (i < n)%nat.
-Proof. destruct m; cbn; lia. Qed.
 Lemma ex_lt m n i : exact1 m n i -> (i < n)%nat.
 Proof. destruct m; cbn; lia. Qed.
+
+Lemma Lx2 (f : list K -> list K) (c : list (list K)) (ny nx : nat) : lenpres f -> rect2 ny nx c ->
+  rect2 ny nx (along_x2 f c) /\
+  forall y x, (y < ny)%nat -> at2 (along_x2 f c) y x = nth x (f (map (fun x' => at2 c y x') (seq 0 nx))) 0.
+Proof.
+  intros Hf [Hy Hr]. unfold along_x2. split.
+  - split; [rewrite map_length; exact Hy|]. intros y Ly'. rewrite (nth_map_in f c y [] []) by lia. rewrite Hf. apply Hr. exact Ly'.
+  - intros y x Ly'. unfold at2. rewrite (nth_map_in f c y [] []) by lia. f_equal. f_equal.
+    apply (nth_ext _ _ 0 0).
+    + rewrite map_length, seq_length. apply Hr. exact Ly'.
+    + intros i Hi. rewrite Hr in Hi by exact Ly'. rewrite (nth_map_seq (fun x' => nth x' (nth y c []) 0)) by exact Hi. reflexivity.
+Qed.
+
+Lemma Ly2 (f : list K -> list K) (c : list (list K)) (ny nx : nat) : lenpres f -> rect2 ny nx c ->
+  (1 <= ny)%nat -> (1 <= nx)%nat ->
+  rect2 ny nx (along_y2 f c) /\
+  forall y x, (y < ny)%nat -> (x < nx)%nat -> at2 (along_y2 f c) y x = nth y (f (map (fun y' => at2 c y' x) (seq 0 ny))) 0.
+Proof.
+  intros Hf [Hy Hr] H1y H1x. assert (R0 : length (nth 0 c []) = nx) by (apply Hr; lia). split.
+  - split.
+    + unfold along_y2. rewrite map_length, seq_length, R0.
+      rewrite (nth_map_seq (fun i => f (map (fun r => nth i r 0) c))) by lia. rewrite Hf, map_length. exact Hy.
+    + intros y Ly'. apply (length_along_y2_row K f c nx y Hf R0 H1x). lia.
+  - intros y x Ly' Lx'. unfold at2. rewrite (nth_along_y2 K f c nx x y Hf R0 Lx') by lia.
+    f_equal. f_equal. unfold colx. apply (nth_ext _ _ 0 0).
+    + rewrite !map_length, seq_length. exact Hy.
+    + intros i Hi. rewrite map_length, Hy in Hi. rewrite (nth_map_in (fun r => nth x r 0) c i [] 0) by lia.
+      rewrite (nth_map_seq (fun y' => nth x (nth y' c []) 0)) by exact Hi. reflexivity.
+Qed.
+
+
+(* ---- D = 2: d/dx = along_x2 fd (along_y2 smooth c), d/dy = along_y2 fd (along_x2 smooth c) ---- *)
+Section Affine2.
+Variables (m : fdmode) (a bx by_ hx hy : K) (nx ny : nat).
+Let c := field2 a bx by_ hx hy nx ny.
+
+Lemma rect_field2 : rect2 ny nx c.
+Proof.
+  unfold c. split; [apply length_field2|]. intros y Ly'. rewrite (field2_row K Kf) by exact Ly'. apply length_aff.
+Qed.
+
+Lemma at2_field2 y x : (y < ny)%nat -> (x < nx)%nat -> at2 c y x = a + bx * (zn x * hx) + by_ * (zn y * hy).
+Proof. intros Ly' Lx'. unfold at2, c. rewrite (field2_row K Kf) by exact Ly'. rewrite nth_aff by exact Lx'. ring. Qed.
+
+Theorem dstep2_affine_x (x y : nat) : hx <> 0 -> exact1 m nx x -> (y < ny)%nat ->
+  nth x (nth y (dstep2 m 0 hx c) []) 0 = bx.
+Proof.
+  intros Hh Hx Ly'. pose proof (ex_lt _ _ _ Hx) as Lx'. unfold dstep2. fold (at2 (along_x2 (fd1 m hx) (along_y2 (smooth1 m) c)) y x).
+  destruct (Ly2 (smooth1 m) c ny nx (lenpres_smooth m) rect_field2 ltac:(lia) ltac:(lia)) as [B1 A1].
+  destruct (Lx2 (fd1 m hx) _ ny nx (lenpres_fd m hx) B1) as [_ A2].
+  rewrite A2 by exact Ly'.
+  apply (diff_line m nx x bx (a + by_ * (zn y * hy) + shiftc K m ny y * (by_ * hy)) hx); try assumption.
+  intros x' Hx'. rewrite A1 by assumption.
+  rewrite (smooth_line m ny y by_ (a + bx * (zn x' * hx)) hy); [ring| |exact Ly'].
+  intros y' Hy'. rewrite at2_field2 by assumption. ring.
+Qed.
+
+Theorem dstep2_affine_y (x y : nat) : hy <> 0 -> exact1 m ny y -> (x < nx)%nat ->
+  nth x (nth y (dstep2 m 1 hy c) []) 0 = by_.
+Proof.
+  intros Hh Hy Lx'. pose proof (ex_lt _ _ _ Hy) as Ly'. unfold dstep2. fold (at2 (along_y2 (fd1 m hy) (along_x2 (smooth1 m) c)) y x).
+  destruct (Lx2 (smooth1 m) c ny nx (lenpres_smooth m) rect_field2) as [B1 A1].
+  destruct (Ly2 (fd1 m hy) _ ny nx (lenpres_fd m hy) B1 ltac:(lia) ltac:(lia)) as [_ A2].
+  rewrite A2 by assumption.
+  apply (diff_line m ny y by_ (a + bx * (zn x * hx) + shiftc K m nx x * (bx * hx)) hy); try assumption.
+  intros y' Hy'. rewrite A1 by assumption.
+  rewrite (smooth_line m nx x bx (a + by_ * (zn y' * hy)) hx); [ring| |exact Lx'].
+  intros x' Hx'. rewrite at2_field2 by assumption. ring.
+Qed.
+End Affine2.
 
 Section Affine.
 Variables (m : fdmode) (a bx by_ bz hx hy hz : K) (nx ny nz : nat).
 Let c := field3 a bx by_ bz hx hy hz nx ny nz.
-Let V := affv a bx by_ bz hx hy hz.
 
 (* d/dx = along_x3 fd (along_z3 smooth (along_y3 smooth c)) *)
-Theorem dstep3_affine_x (x y z : nat) : hx <> 0 -> exact1 m nx x -> smooth_ok m ny y -> smooth_ok m nz z ->
+Theorem dstep3_affine_x (x y z : nat) : hx <> 0 -> exact1 m nx x -> (y < ny)%nat -> (z < nz)%nat ->
   acc (dstep3 m 0 hx c) z y x = bx.
 Proof.
-  intros Hh Hx Hy Hz. pose proof (ex_lt _ _ _ Hx) as Lx'. pose proof (ok_lt _ _ _ Hy) as Ly'. pose proof (ok_lt _ _ _ Hz) as Lz'.
+  intros Hh Hx Ly' Lz'. pose proof (ex_lt _ _ _ Hx) as Lx'.
   unfold dstep3.
   destruct (Ly (smooth1 m) c nz ny nx (lenpres_smooth m) (box_field3 _ _ _ _ _ _ _ _ _ _) ltac:(lia) ltac:(lia)) as [B1 A1].
   destruct (Lz (smooth1 m) _ nz ny nx (lenpres_smooth m) B1 ltac:(lia) ltac:(lia) ltac:(lia)) as [B2 A2].
   destruct (Lx (fd1 m hx) _ nz ny nx (lenpres_fd m hx) B2) as [_ A3].
   rewrite A3 by assumption.
-  apply (diff_line m nx x bx (a + by_ * (zn y * hy) + bz * (zn z * hz)) hx); try assumption.
+  apply (diff_line m nx x bx (a + by_ * (zn y * hy) + bz * (zn z * hz) + shiftc K m ny y * (by_ * hy) + shiftc K m nz z * (bz * hz)) hx); try assumption.
   intros x' Hx'. rewrite A2 by assumption.
-  rewrite (smooth_line m nz z bz (a + bx * (zn x' * hx) + by_ * (zn y * hy)) hz); [ring| |exact Hz].
+  rewrite (smooth_line m nz z bz (a + bx * (zn x' * hx) + by_ * (zn y * hy) + shiftc K m ny y * (by_ * hy)) hz); [ring| |exact Lz'].
   intros z' Hz'. rewrite A1 by assumption.
-  rewrite (smooth_line m ny y by_ (a + bx * (zn x' * hx) + bz * (zn z' * hz)) hy); [ring| |exact Hy].
+  rewrite (smooth_line m ny y by_ (a + bx * (zn x' * hx) + bz * (zn z' * hz)) hy); [ring| |exact Ly'].
   intros y' Hy'. unfold c. rewrite acc_field3 by assumption. ring.
 Qed.
 
 (* d/dy = along_y3 fd (along_z3 smooth (along_x3 smooth c)) *)
-Theorem dstep3_affine_y (x y z : nat) : hy <> 0 -> exact1 m ny y -> smooth_ok m nx x -> smooth_ok m nz z ->
+Theorem dstep3_affine_y (x y z : nat) : hy <> 0 -> exact1 m ny y -> (x < nx)%nat -> (z < nz)%nat ->
   acc (dstep3 m 1 hy c) z y x = by_.
 Proof.
-  intros Hh Hy Hx Hz. pose proof (ex_lt _ _ _ Hy) as Ly'. pose proof (ok_lt _ _ _ Hx) as Lx'. pose proof (ok_lt _ _ _ Hz) as Lz'.
+  intros Hh Hy Lx' Lz'. pose proof (ex_lt _ _ _ Hy) as Ly'.
   unfold dstep3.
   destruct (Lx (smooth1 m) c nz ny nx (lenpres_smooth m) (box_field3 _ _ _ _ _ _ _ _ _ _)) as [B1 A1].
   destruct (Lz (smooth1 m) _ nz ny nx (lenpres_smooth m) B1 ltac:(lia) ltac:(lia) ltac:(lia)) as [B2 A2].
   destruct (Ly (fd1 m hy) _ nz ny nx (lenpres_fd m hy) B2 ltac:(lia) ltac:(lia)) as [_ A3].
   rewrite A3 by assumption.
-  apply (diff_line m ny y by_ (a + bx * (zn x * hx) + bz * (zn z * hz)) hy); try assumption.
+  apply (diff_line m ny y by_ (a + bx * (zn x * hx) + bz * (zn z * hz) + shiftc K m nx x * (bx * hx) + shiftc K m nz z * (bz * hz)) hy); try assumption.
   intros y' Hy'. rewrite A2 by assumption.
-  rewrite (smooth_line m nz z bz (a + bx * (zn x * hx) + by_ * (zn y' * hy)) hz); [ring| |exact Hz].
+  rewrite (smooth_line m nz z bz (a + bx * (zn x * hx) + by_ * (zn y' * hy) + shiftc K m nx x * (bx * hx)) hz); [ring| |exact Lz'].
   intros z' Hz'. rewrite A1 by assumption.
-  rewrite (smooth_line m nx x bx (a + by_ * (zn y' * hy) + bz * (zn z' * hz)) hx); [ring| |exact Hx].
+  rewrite (smooth_line m nx x bx (a + by_ * (zn y' * hy) + bz * (zn z' * hz)) hx); [ring| |exact Lx'].
   intros x' Hx'. unfold c. rewrite acc_field3 by assumption. ring.
 Qed.
 
 (* d/dz = along_z3 fd (along_y3 smooth (along_x3 smooth c)) *)
-Theorem dstep3_affine_z (x y z : nat) : hz <> 0 -> exact1 m nz z -> smooth_ok m nx x -> smooth_ok m ny y ->
+Theorem dstep3_affine_z (x y z : nat) : hz <> 0 -> exact1 m nz z -> (x < nx)%nat -> (y < ny)%nat ->
   acc (dstep3 m 2 hz c) z y x = bz.
 Proof.
-  intros Hh Hz Hx Hy. pose proof (ex_lt _ _ _ Hz) as Lz'. pose proof (ok_lt _ _ _ Hx) as Lx'. pose proof (ok_lt _ _ _ Hy) as Ly'.
+  intros Hh Hz Lx' Ly'. pose proof (ex_lt _ _ _ Hz) as Lz'.
   unfold dstep3.
   destruct (Lx (smooth1 m) c nz ny nx (lenpres_smooth m) (box_field3 _ _ _ _ _ _ _ _ _ _)) as [B1 A1].
   destruct (Ly (smooth1 m) _ nz ny nx (lenpres_smooth m) B1 ltac:(lia) ltac:(lia)) as [B2 A2].
   destruct (Lz (fd1 m hz) _ nz ny nx (lenpres_fd m hz) B2 ltac:(lia) ltac:(lia) ltac:(lia)) as [_ A3].
   rewrite A3 by assumption.
-  apply (diff_line m nz z bz (a + bx * (zn x * hx) + by_ * (zn y * hy)) hz); try assumption.
+  apply (diff_line m nz z bz (a + bx * (zn x * hx) + by_ * (zn y * hy) + shiftc K m nx x * (bx * hx) + shiftc K m ny y * (by_ * hy)) hz); try assumption.
   intros z' Hz'. rewrite A2 by assumption.
-  rewrite (smooth_line m ny y by_ (a + bx * (zn x * hx) + bz * (zn z' * hz)) hy); [ring| |exact Hy].
+  rewrite (smooth_line m ny y by_ (a + bx * (zn x * hx) + bz * (zn z' * hz) + shiftc K m nx x * (bx * hx)) hy); [ring| |exact Ly'].
   intros y' Hy'. rewrite A1 by assumption.
-  rewrite (smooth_line m nx x bx (a + by_ * (zn y' * hy) + bz * (zn z' * hz)) hx); [ring| |exact Hx].
+  rewrite (smooth_line m nx x bx (a + by_ * (zn y' * hy) + bz * (zn z' * hz)) hx); [ring| |exact Lx'].
   intros x' Hx'. unfold c. rewrite acc_field3 by assumption. ring.
 Qed.
 End Affine.
